@@ -32,12 +32,17 @@ class _QubitRemapper(IRVisitor):
 
     def __init__(self, mapping: Mapping) -> None:
         self.mapping = mapping
+        # Qubit objects already remapped, so that an object reachable twice (e.g. a statement that occurs
+        # twice in the IR) is remapped only once.
+        self.visited: dict[int, Qubit] = {}
 
     def visit_comment(self, comment: Comment) -> Comment:
         return comment
 
     def visit_qubit(self, qubit: Qubit) -> Qubit:
-        qubit.index = self.mapping[qubit.index]
+        if id(qubit) not in self.visited:
+            self.visited[id(qubit)] = qubit
+            qubit.index = self.mapping[qubit.index]
         return qubit
 
     def _visit_arguments(self, statement: Statement) -> None:
